@@ -1584,16 +1584,29 @@ def run_empty_candidates(repo, chk):
 
     chk.rule("D-empty", "particle_item_list stores an empty candidate list as [] and every reader of particle_map distinguishes empty from missing (no `.get(k) or default`, no truthiness test of the looked-up list)")
     w = repo.fn(DEC + "::DecayConfig.particle_item_list")
-    stores_empty = False
-    for n in walk_local(w.node):
-        if isinstance(n, ast.If) and norm_text(n.test).replace(" ", "") in ("len(candidate)==0", "notcandidate", "candidate==[]", "len(candidate)<1", "notlen(candidate)"):
-            for st in n.body:
-                if isinstance(st, ast.Assign) and isinstance(st.targets[0], ast.Subscript) and norm_text(st.targets[0].value) == "particle_map" and isinstance(st.value, ast.List) and not st.value.elts:
-                    stores_empty = True
-    chk.instance("D-empty", "particle_item_list: `particle_map[particle] = []` for an empty candidate list: %s" % stores_empty)
+    # writer side, by interpretation: an empty candidate list is recorded as [] (not left out), mixed with ordinary slots
+    import sympy as _sp
+
+    from ..sym import Translator, Unmodelled
+
+    def isinst(tr_, args, kwargs, node):
+        names = {x.id for x in ast.walk(node.args[1]) if isinstance(x, ast.Name)} if len(node.args) > 1 else set()
+        table = {"list": list, "dict": dict, "str": str}
+        return any(nm in table and isinstance(args[0], table[nm]) for nm in names)
+
+    tr = Translator(repo, hooks={"builtin.isinstance": isinst, "allow_attr_store": True, "allow_raise": True}, max_depth=3)
+    card = {"R_BC": [], "R_BD": ["X1", "X2"], "R_CD": [{"R_CD": ["Y1"], "Y1": {"J": _sp.Integer(1)}}], "X1": {"J": _sp.Integer(0)}}
+    try:
+        out = tr.call_fn(w, [card])
+    except Unmodelled as e:
+        raise AnalysisError("particle_item_list cannot be interpreted: %s" % e)
+    if not (isinstance(out, tuple) and len(out) == 2 and isinstance(out[0], dict)):
+        raise AnalysisError("particle_item_list no longer returns (particle_map, particle_property)")
+    pmap = out[0]
+    stores_empty = "R_BC" in pmap and list(pmap["R_BC"]) == [] and list(pmap.get("R_BD", [])) == ["X1", "X2"] and list(pmap.get("R_CD", [])) == ["Y1"]
+    chk.oblige("D-empty", "particle_item_list({R_BC: [], R_BD: [X1, X2], R_CD: [{...}], ...}) == {R_BC: [], R_BD: [X1, X2], R_CD: [Y1]}", stores_empty)
     if not stores_empty:
-        # the writer's idiom is not recognised: whether empty lists are still recorded cannot be told from the shape
-        raise AnalysisError("particle_item_list: the explicit `particle_map[particle] = []` for an empty candidate list was not found")
+        chk.violation("D-empty", w.key, "writer", "particle_item_list maps the card {R_BC: [], R_BD: [X1, X2], R_CD: [{R_CD: [Y1]}]} to %s: a slot with an empty candidate list must be recorded as [] - a missing entry makes the readers fall back to a particle named after the slot, i.e. the switched-off chain comes back with an undeclared default particle" % ({k: list(v) for k, v in pmap.items()},), file=DEC, line=w.lineno)
     m = repo.mod(DEC)
     n_reads = 0
     for f in m.funcs.values():
